@@ -157,8 +157,10 @@ def raft_run(ctx, note=True):
     return res
 
 
-def account(ctx, res, props):
-    """fill ctx.correspondence / monitor stats and report monitor records of the given properties"""
+def account(ctx, res, props, by_generator=None):
+    """fill ctx.correspondence / monitor stats and report monitor records of the given properties;
+    by_generator: {generator: extra properties whose records count for this check in traces of that generator}"""
+    by_generator = by_generator or {}
     st = ctx.corr(COMPONENT)
     kinds = {}
     stats = {}
@@ -200,7 +202,7 @@ def account(ctx, res, props):
         for k, v in t['stats'].items():
             stats[k] = stats.get(k, 0) + v
         for prop, msg, step in t['records']:
-            if prop in props:
+            if prop in props or prop in by_generator.get(t['item'][0], ()):
                 n_rec += 1
                 if n_rec <= 3:
                     ctx.violation('%s monitor on the implementation: %s' % (prop, msg),
@@ -267,11 +269,11 @@ def replay(ctx, data, props):
     return 0
 
 
-def standard_module(pid, props):
+def standard_module(pid, props, by_generator=None):
     """builds correspondence/search/replay functions for a property that only uses the shared run"""
     def correspondence(ctx):
         res = raft_run(ctx)
-        account(ctx, res, props)
+        account(ctx, res, props, by_generator)
 
     def search_(ctx):
         return search(ctx, props)
